@@ -126,6 +126,29 @@ def test_params(rng):
     _check(secp.E.on_curve(secp.G) and secp.E.mul(secp.G, secp.N) is None, "secp generator")
 
 
+def test_scalar_mul(rng):
+    """Jacobian ladder == affine double-and-add: exhaustively on small curves (incl. a != 0,
+    even order, quadratic extension), random on the real curves."""
+    for p, a, b in ((5, 0, 1), (7, 0, 3), (11, 1, 6), (13, 0, 7), (17, 2, 2), (23, 1, 1), (7, 0, 1)):
+        E = Curve(Fld(p), a, b)
+        pts = E.all_points()
+        for Pt in pts:
+            for n in range(-3, 2 * len(pts) + 3):
+                _check(E.mul(Pt, n) == E.mul_affine(Pt, n), "small-curve scalar mul")
+    for p, mc, b in ((5, (2, 0), (1, 1)), (7, (1, 0), (2, 3))):
+        F = Fld(p, mc)
+        E = Curve(F, F.zero, b)
+        pts = E.all_points()
+        for Pt in pts:
+            for n in range(0, len(pts) + 2):
+                _check(E.mul(Pt, n) == E.mul_affine(Pt, n), "small Fp2 curve scalar mul")
+    for E, bits in ((params.BLS_E1, 255), (params.BLS_E2, 255), (params.BN_E1, 254), (params.BN_E2, 254), (secp.E, 256),
+                    (params.BLS_E12, 64), (h2c.G1_SSWU.E, 128)):
+        Pt = E.rand_point(rng) if E.F.k < 12 else params.suite("bls12_381").twist(params.bls_generators()[1])
+        for n in (1, 2, 3, rng.getrandbits(bits), rng.getrandbits(bits) | 1):
+            _check(E.mul(Pt, n) == E.mul_affine(Pt, n), "real-curve scalar mul " + E.name)
+
+
 def test_zcash(rng):
     S = params.suite("bls12_381")
     _check(zcash.enc_g1(S.g1).hex().startswith("97f1d3a73197d7942695638c4fa9ac0f"), "compressed G1 generator")
@@ -242,7 +265,7 @@ def test_secp(rng):
 def run(seed=0, thorough=False, only=None):
     rng = random.Random(seed ^ 0x5E1F)
     tests = {
-        "fields": test_fields, "params": test_params, "zcash": test_zcash, "hkdf": test_hkdf,
+        "fields": test_fields, "scalar_mul": test_scalar_mul, "params": test_params, "zcash": test_zcash, "hkdf": test_hkdf,
         "h2c": lambda r: test_h2c(r, thorough), "bls": test_bls, "secp": test_secp,
     }
     ran = []
